@@ -26,7 +26,7 @@ MRegisterProxy(r, n) == RegisterProxy(r, n) /\ PrintT(ToJson(
 MResolveTemp(q) == ResolveTemp(q) /\ PrintT(ToJson(
     [src |-> St, act |-> [n |-> "Resolve", q |-> q], out |-> OutResolve(q), dst |-> St']))
 MNext == \/ \E r \in Regions : \/ \E w \in 1..7 : MSeedReq(r, w)
-                               \/ \E i \in 1..9 : MSeedResp(r, i)
+                               \/ \E i \in 1..10 : MSeedResp(r, i)
                                \/ \E u \in TempUrls(r) : \E n \in TempNames : MRegisterTemp(r, u, n)
                                \/ \E n \in PONameSet : MRegisterProxy(r, n)
          \/ \E q \in TempReqs : MResolveTemp(q)
